@@ -7,7 +7,7 @@ PID = "C05"
 
 def the_oracle(case, k, block, mu): return oracle_c05(case, k, block)
 
-def run(tier, replay=None, pid=PID, theorems=THEOREMS, oracle=the_oracle, ks=(1, 2, 3, 5, 9, 40), need_mu=False, module="Parmcb"):
+def run(tier, replay=None, pid=PID, theorems=THEOREMS, oracle=the_oracle, ks=(1, 2, 3, 5, 9, 40, 2 ** 30 + 1, 2 ** 40), need_mu=False, module="Parmcb"):
     res = Result(pid, tier, "proof")
     res.assumptions = ["relational layer: Model/Spanner.lean (approxRun) + Model/DePina.lean; the exact phase on the spanner and the shortest spanner paths are open choices validated per run (trace validation)",
                        "literal layer: Model/ApproxAlgo.lean / Model/HeapAlgo.lean are end-to-end literal models (spanner, exact phase on the spanner, literal parmcb::dijkstra on a literal 4-ary heap, walk back along the predecessor edges) whose correctness is PROVED (c05_approx_*_end_to_end); on every sequential run the exact phase is replayed literally on the spanner and every dropped-edge cycle must equal the literal heap-Dijkstra path, edge by edge in order",
